@@ -61,6 +61,10 @@ struct Run {
     local_name: String,
 }
 
+thread_local! {
+    static LATE_PARENT: std::cell::Cell<Option<(u128, u64)>> = const { std::cell::Cell::new(None) };
+}
+
 fn run_one(sink: &Arc<Mutex<Vec<SpanRecord>>>, c: &Case, annotated: bool, uniq: u64) -> Run {
     let pair = &generated::PAIRS[c.pair];
     fastrace::flush();
@@ -92,6 +96,26 @@ fn run_one(sink: &Arc<Mutex<Vec<SpanRecord>>>, c: &Case, annotated: bool, uniq: 
         if let Some(f) = rt::MID_POLL.with(|m| m.borrow_mut().take()) {
             f();
         }
+    } else if c.ctx >= 5 {
+        // contexts 5 and 6: the call is made outside any scope; the caller's root becomes the
+        // local parent just before the first (5) or the second (6) poll of the returned future
+        let root = std::rc::Rc::new(Span::root(root_name.clone(), SpanContext::new(TraceId(uniq as u128 + 1), SpanId(0))));
+        let r2 = root.clone();
+        rt::SCOPE_AT_POLL.with(|s| {
+            *s.borrow_mut() = Some((
+                if c.ctx == 5 { 1 } else { 2 },
+                Box::new(move || {
+                    let g = r2.set_local_parent();
+                    LATE_PARENT.with(|p| p.set(SpanContext::current_local_parent().map(|c| (c.trace_id.0, c.span_id.0))));
+                    Box::new(g) as Box<dyn std::any::Any>
+                }),
+            ))
+        });
+        LATE_PARENT.with(|p| p.set(None));
+        out = (pair.drive)(annotated, &c.inp);
+        rt::SCOPE_AT_POLL.with(|s| *s.borrow_mut() = None);
+        ctx_parent = LATE_PARENT.with(|p| p.get());
+        drop(root);
     } else {
         // context 4: as context 1, but the returned future is dropped without a poll
         let unpolled = c.ctx == 4 && pair.is_async && !pair.eop;
@@ -183,6 +207,54 @@ fn check(sink: &Arc<Mutex<Vec<SpanRecord>>>, c: &Case, uniq: &mut u64) -> Vec<Vi
             out.push(Viol { sig: "recorded-without-local-parent".into(), msg: format!("{}: {} spans recorded without a local parent", who, ours.len()) });
         }
         return out;
+    }
+    if c.ctx >= 5 {
+        let Some((ptrace, pid)) = ann.ctx_parent else {
+            // the scope never opened (a plain function, or a future that was ready before the
+            // poll the scope was due at): nothing had a local parent
+            if !ours.is_empty() {
+                out.push(Viol { sig: "recorded-without-local-parent".into(), msg: format!("{}: {} spans recorded without a local parent", who, ours.len()) });
+            }
+            return out;
+        };
+        let calls = &plain.calls;
+        if calls.is_empty() {
+            return out;
+        }
+        let top_name = expected_name(&generated::PAIRS[calls[0].1], calls[0].2);
+        let nested_same = calls.iter().skip(1).filter(|(_, id, p)| expected_name(&generated::PAIRS[*id], p) == top_name).count();
+        let top_recs: Vec<&&SpanRecord> = ours.iter().filter(|r| r.name == top_name).collect();
+        let at_call = pair.kind == "AsyncTrait" || pair.kind == "BoxPinTail";
+        if pair.eop {
+            // one span per poll that had a local parent
+            if calls.len() == 1 {
+                let want = if c.ctx == 5 { ann.out.polls } else { ann.out.polls.saturating_sub(1) };
+                let under = top_recs.iter().filter(|r| r.parent_id.0 == pid && r.trace_id.0 == ptrace).count();
+                if top_recs.len() != want || under != want {
+                    out.push(Viol { sig: "span-count:enter_on_poll:scope-opened-late".into(), msg: format!("{}: {} polls, the caller's scope opened before poll {}: expected {} span(s) {:?} under the caller's root, delivered {} ({} under it)", who, ann.out.polls, if c.ctx == 5 { 1 } else { 2 }, want, top_name, top_recs.len(), under) });
+                }
+            }
+            return out;
+        }
+        // a span that was created where nothing records is a no-op for good: nothing of the call
+        // itself is recorded later, wherever its future is polled
+        let created_without_parent = at_call || c.ctx == 6;
+        if created_without_parent {
+            if nested_same == 0 && !top_recs.is_empty() {
+                out.push(Viol { sig: "span-of-call-without-local-parent".into(), msg: format!("{}: the call was made (its span created) without a local parent, its future polled inside a scope: {} span(s) {:?} delivered", who, top_recs.len(), top_name) });
+            }
+            if let Some(root) = ann.records.iter().find(|r| r.name == ann.root_name) {
+                if !root.properties.is_empty() || !root.events.is_empty() {
+                    out.push(Viol { sig: "properties-on-pollers-span".into(), msg: format!("{}: the span of the scope the future was polled in carries {:?}: properties of a call whose own span does not record", who, root.properties.iter().map(|(k, v)| (k.to_string(), v.to_string())).collect::<Vec<_>>()) });
+                }
+            }
+            return out;
+        }
+        // a plain `async fn` creates its span at its first poll: context 5 is context 1 for it
+        // (other shapes do part of their work at call time: nothing further is claimed for them)
+        if pair.kind != "AsyncFree" && pair.kind != "AsyncMethod" {
+            return out;
+        }
     }
     if c.ctx == 4 && pair.is_async && !pair.eop && ann.out.panic.as_deref() == Some(rt::UNPOLLED) {
         // the future was dropped without a poll: the body never ran. A function that returns a
@@ -282,7 +354,7 @@ fn case_strategy(npairs: usize, only: Option<usize>) -> BoxedStrategy<Case> {
     };
     let int = prop_oneof![4 => -20i64..200, 2 => any::<i64>(), 1 => Just(0i64), 1 => Just(i64::MAX), 1 => Just(i64::MIN)];
     let s = prop_oneof![3 => "[a-z]{0,6}", 1 => Just("é😀\"{}".to_string()), 1 => Just(String::new())];
-    (pair, [int.clone(), int.clone(), int.clone(), int], [s.clone(), s], prop_oneof![1 => Just(0u8), 3 => Just(1u8), 2 => Just(2u8), 2 => Just(3u8), 1 => Just(4u8)])
+    (pair, [int.clone(), int.clone(), int.clone(), int], [s.clone(), s], prop_oneof![1 => Just(0u8), 3 => Just(1u8), 2 => Just(2u8), 2 => Just(3u8), 1 => Just(4u8), 1 => Just(5u8), 1 => Just(6u8)])
         .prop_map(|(pair, ints, strs, ctx)| Case { pair, inp: rt::Inputs { ints, strs }, ctx })
         .boxed()
 }
